@@ -537,4 +537,81 @@ end Spec
 
 end Mech
 
+/-! ## composite paging (C30): key ⇄ JSON and the client's walk -/
+
+section Composite
+variable {φ κ ν : Type} [KOrd κ] [DecidableEq κ] [DecidableEq ν]
+
+/-- JSON value of one key component as `composite_key_from_value` looks at it -/
+inductive PJ (κ : Type) where
+  | str (s : κ)
+  | num (q : Rat)
+  | other
+deriving DecidableEq, Repr
+
+/-- `CompositeKeyPart::to_json` (numbers are finite in the model) -/
+def Part.toJ : Part κ → PJ κ
+  | .str s => .str s
+  | .num q => .num q
+
+def objGet (name : ν) : List (ν × PJ κ) → Option (PJ κ)
+  | [] => none
+  | (n, v) :: t => if name = n then some v else objGet name t
+
+/-- `composite_key_to_json`: `obj.insert(source.name, part.to_json())` along the zip of parts and
+sources (a later insert of the same name wins: modelled by prepending) -/
+def keyToJson : List ν → List (Part κ) → List (ν × PJ κ) → List (ν × PJ κ)
+  | n :: ns, p :: ps, acc => keyToJson ns ps ((n, p.toJ) :: acc)
+  | _, _, acc => acc
+
+/-- `composite_key_from_value`: every source name must be present with a value of the source's
+kind (`true` = terms source: string; `false` = histogram source: number) -/
+def keyFromJson (obj : List (ν × PJ κ)) : List (ν × Bool) → Option (List (Part κ))
+  | [] => some []
+  | (name, isTerms) :: rest =>
+    match objGet name obj, isTerms with
+    | some (.str s), true =>
+      match keyFromJson obj rest with
+      | some ps => some (Part.str s :: ps)
+      | none => none
+    | some (.num q), false =>
+      match keyFromJson obj rest with
+      | some ps => some (Part.num q :: ps)
+      | none => none
+    | _, _ => none
+
+/-- a key whose parts have the kinds of the sources -/
+def wfKey : List (ν × Bool) → List (Part κ) → Bool
+  | [], [] => true
+  | (_, true) :: ss, .str _ :: ps => wfKey ss ps
+  | (_, false) :: ss, .num _ :: ps => wfKey ss ps
+  | _, _ => false
+
+/-- what the client sends back as `after` for a received `after_key` -/
+def afterOfKey (srcs : List (ν × Bool)) : Key κ → Option (List (Part κ))
+  | .parts ps => keyFromJson (keyToJson (srcs.map (·.1)) ps []) srcs
+  | _ => none
+
+/-- one page of the composite aggregation over the merged bucket map `bs` -/
+def compositePage (size : Nat) (after : Option (List (Part κ))) (bs : Buckets κ) :
+    Buckets κ × Option (Key κ) :=
+  finalPost (φ := Unit) (.composite [] size after) bs
+
+/-- the client's walk: request pages, sending each `after_key` back as `after`, until a page
+comes without `after_key` -/
+def compositeWalk (srcs : List (ν × Bool)) (size : Nat) (bs : Buckets κ) :
+    Nat → Option (List (Part κ)) → List (Buckets κ × Option (Key κ))
+  | 0, _ => []
+  | fuel + 1, after =>
+    match compositePage size after bs with
+    | (page, none) => [(page, none)]
+    | (page, some k) => (page, some k) :: compositeWalk srcs size bs fuel (afterOfKey srcs k)
+
+end Composite
+
+/-- `f64::total_cmp` on finite floats including the two zeros: value, then `-0.0 < +0.0`
+(`negz` marks a negative zero) -/
+def f64Lt (a b : Rat × Bool) : Bool :=
+  decide (a.1 < b.1) || (decide (a.1 = b.1) && a.2 && !b.2)
+
 end SL.Aggs
